@@ -48,6 +48,12 @@ def _c13_judge(op, impl, spec):
     return impl == spec
 
 
+def _c16_judge(op, impl, spec):
+    if spec in ("*", "-"):
+        return not impl.startswith(("PANIC", "err:", "bad-op"))
+    return impl.split(" H=")[0] in ("same", "err-open", "err-read", "skip")
+
+
 def _c12_nontrivial(lines):
     # a case with a multi-block (fragmented) record or several sessions, and damage/truncation ops
     sess = [l for l in lines if l.startswith("session")]
@@ -346,6 +352,36 @@ PROPS = {
         "trusted_base": ["modelled, not verified: TableIterator / Table::get / IndexIterator / BlockIterator::seek_internal control flow, "
                          "comparator separator/successor, key-range predicates (hand transcription into Skv/Model/Sst.lean, SstSep.lean)",
                          "the layout dump hook (src/verif.rs sstable::Tbl::layout) reads through the same block readers it describes"],
+    },
+    "C16": {
+        "lean": ["Skv.Props.C16"],
+        "audit": "Skv/Audit/C16.lean",
+        "streams": [
+            {"name": "tablefile", "harness": "c16", "driver": "c16", "quick_cases": 25, "thorough_cases": 120,
+             "nontrivial": lambda lines: sum(1 for l in lines if l.startswith("flip")) > 300,
+             "judge": _c16_judge, "timeout": 3000},
+            {"name": "storedir", "harness": "c16s", "driver": "c16s", "quick_cases": 12, "thorough_cases": 60,
+             "nontrivial": lambda lines: sum(1 for l in lines if l.startswith("alter")) > 50,
+             "judge": _c16_judge, "model_is_spec": True, "timeout": 3000},
+        ],
+        "rule": "(tablefile) table files written by the real TableWriter (block size {64..4096} x restart interval x partition size x "
+                "{none, snappy} x filter on/off): one bit of every byte (quick; every bit of every byte in the thorough tier), byte "
+                "overwrites with 0x00/0xff/0x80/0x01 and 12 truncations per file; the altered file is opened from disk with the real "
+                "reader and every stored key (newest snapshot), two absent keys, a complete forward and a complete backward scan are "
+                "compared with the pristine answers; outcome classes same / err-open / err-read / DIFFERENT / PANIC; the model predicts "
+                "the class from the byte region (dumped from the real file and checked to tile it); (storedir) database directories "
+                "built by generated workloads (flushes, live commit log, value log on/off) copied while open; one bit or byte of one "
+                "table / commit-log segment / value-log file / manifest altered per run, the image opened with TreeBuilder "
+                "(AbsoluteConsistency, value-log verification Full) and all keys read by get and scan; non-trivial = a case with "
+                "hundreds (table) / dozens (store) of alterations",
+        "assumptions": [
+            "CRC-32 detects the generated alterations (single bit, single byte): assumed in C16_block_guard, observed for every generated input",
+            "manifest alterations are executed and counted (outside_H_manifest) but not judged: the property names table, commit-log and value-log files",
+            "commit-log damage is judged in AbsoluteConsistency mode (the default mode repairs by cutting the log: covered by C12)",
+            "hangs are bounded by scan step limits; a blocking call would stall the run until the stream timeout",
+        ],
+        "trusted_base": ["modelled, not verified: the block container format (payload, type byte, masked CRC) and which blocks are read at open "
+                         "versus on demand; footer handles, block contents, value-log and manifest formats are swept, not modelled"],
     },
     "C15": {
         "lean": ["Skv.Props.C15"],
